@@ -5,7 +5,11 @@
 // the canonical dump of the outcome (lib.DumpOutcome, extended Go-side by the trees of the
 // submodules and by every identity's value list with source positions) and ALSO the dump of a
 // batch run of the texts accepted so far on a FRESH Modules value: a difference between the two
-// Go dumps is a violation by itself.  The sequence of answers (accepted / rejected per load, dump
+// Go dumps is a violation by itself.  After EVERY process - also one that reported errors, where
+// the canonical dump holds the errors only - the trees that ToEntry hands out right then (all node
+// fields, resolved types with union members, tree errors, identity value lists, typedef types) are
+// compared with those of the fresh twin as well (treesAfter): a run that fails to resolve something
+// must not hand out what an earlier generation resolved.  The sequence of answers (accepted / rejected per load, dump
 // per process, node per read) is compared with the Lean session model (drv_session: the registry
 // is the only state, process is a pure function of it).
 package main
